@@ -445,6 +445,30 @@ func run(c *fw.Ctx) {
 				Detail:  fmt.Sprintf("state {%s}\nop %s [%s]\n%s", strings.ReplaceAll(s.Key, "\n", ", "), fsx.OpString(g.Op), g.Tag, detail),
 				Witness: fw.JSON(witness{State: s.Tree.Flat(), Op: g.Op})})
 		}
+		// retained results (held across every later operation, other reads included)
+		reads, follows := probeOps(s.Tree, contents)
+		for _, rd := range reads {
+			for _, fo := range follows {
+				c.R.Evaluations++
+				c.Count("retained_result_probes", 1)
+				bad := runDiskProbe(s.Tree, rd, fo)
+				if bad == "" {
+					continue
+				}
+				if strings.HasPrefix(bad, "harness:") {
+					c.Infra("%s", bad)
+					return
+				}
+				sg := fmt.Sprintf("C02/disk-retained-%s-changed-by/%s", rd.Kind, fo.Kind)
+				if c.Violated(sg) {
+					c.Violate(&fw.Violation{Signature: sg})
+					continue
+				}
+				c.Violate(&fw.Violation{Property: "C02", Clause: "a disk filespace returns the same results as the in-memory filespace, so code written against the Filespace interface may switch backend", Signature: sg,
+					Detail:  fmt.Sprintf("state {%s}\n%s", strings.ReplaceAll(s.Key, "\n", ", "), bad),
+					Witness: fw.JSON(map[string]interface{}{"probe": ProbeWit{State: s.Tree.Flat(), Read: rd, Follow: fo}})})
+			}
+		}
 		if si%29 == 7 {
 			c.Sample(map[string]interface{}{"state": strings.Split(s.Key, "\n"), "ops_applied_to_both_backends": len(alphabet)})
 		}
@@ -539,6 +563,15 @@ func replay(w json.RawMessage) (*fw.Violation, error) {
 	if err := json.Unmarshal(w, &cw); err == nil && strings.HasPrefix(cw.Program, "conc/") {
 		return explore.ReplayProgram(mkConc(cw.Spec), cw.Choices)
 	}
+	var pw struct {
+		Probe *ProbeWit `json:"probe"`
+	}
+	if err := json.Unmarshal(w, &pw); err == nil && pw.Probe != nil {
+		if bad := runDiskProbe(treeFromFlat(pw.Probe.State), pw.Probe.Read, pw.Probe.Follow); bad != "" {
+			return &fw.Violation{Property: "C02", Clause: "same results as the in-memory filespace", Signature: fmt.Sprintf("C02/disk-retained-%s-changed-by/%s/replay", pw.Probe.Read.Kind, pw.Probe.Follow.Kind), Detail: bad}, nil
+		}
+		return nil, nil
+	}
 	var lw struct {
 		Live *liveWit `json:"live"`
 	}
@@ -564,7 +597,7 @@ func replay(w json.RawMessage) (*fw.Violation, error) {
 
 func init() {
 	fw.Register(&fw.Check{ID: "C02", Level: "model_checking",
-		Rule: "states = every tree of depth<=2 over names {a,b} and the content pool, materialised in a scratch directory (disk) and built through MkdirAll/WriteFile (memory); from every state every op of the alphabet (16 methods x path spellings x contents/chunkings/buffers x root and child views) is applied to BOTH real backends; where the stated preconditions hold results and trees must be equal to each other and to the tree model, otherwise each backend must fail cleanly (no panic, failed op leaves the tree unchanged, nothing outside the addressed paths or outside the host root changes); plus every history of 3 operations from a 28-entry alphabet (writes, writers, mkdirs, removes, copies through the root and through a child view) executed on the SAME disk and memory filespace objects (root and child view obtained once), judged step by step; distinct = (state, op) transitions and live histories",
+		Rule: "states = every tree of depth<=2 over names {a,b} and the content pool, materialised in a scratch directory (disk) and built through MkdirAll/WriteFile (memory); from every state every op of the alphabet (16 methods x path spellings x contents/chunkings/buffers x root and child views) is applied to BOTH real backends; where the stated preconditions hold results and trees must be equal to each other and to the tree model, otherwise each backend must fail cleanly (no panic, failed op leaves the tree unchanged, nothing outside the addressed paths or outside the host root changes); plus every history of 3 operations from a 28-entry alphabet (writes, writers, mkdirs, removes, copies through the root and through a child view) executed on the SAME disk and memory filespace objects (root and child view obtained once), judged step by step; distinct = (state, op) transitions and live histories; plus retained-result probes on disk: from every state each ReadFile / ReadDir result is held across every later operation (all mutators and all reads of every node) and re-inspected - the in-memory backend hands out private snapshots",
 		Run:  run, Replay: replay,
 		Assumptions: []string{"single-operation transitions start from directly materialised disk states; state kept inside filespace objects is exercised by the live histories (depth 3)", "no symlinks/permissions; RemoveAll/Remove of the real root excluded", "a Writer below a missing parent is outside the stated preconditions (error or parents created)"}})
 }
